@@ -158,7 +158,7 @@ func checkLocal(r *core.Run, voc *Vocab, cases []*Case, st *stats) {
 				if v, ok := m.Default[n]; ok {
 					return v // may be several classes (composes)
 				}
-				return n
+				return "unreferenced-" + n // not a local name of the sheet: must not meet an emitted name by accident
 			}
 			rd := voc.domJSON(rename)
 			for _, el := range rd { // a composed value is several classes
